@@ -5594,6 +5594,8 @@ class PyCdlib:
                 num_bytes_to_add += self._add_fp(None, 0, False, symlink_path,
                                                  '', tmp_joliet_path, '', None,
                                                  False)
+                # The Joliet placeholder for the symlink has just been added.
+                joliet_path = None
 
             udf_symlink_path_bytes = utils.normpath(udf_symlink_path)
 
